@@ -60,7 +60,7 @@ def make_evaluator(defs: Dict[str, ast.expr],
         return None
 
     def ev(e, depth=0):
-        if depth > 14:
+        if depth > 40:
             return ("bad", "definition chain too deep")
         if known is not None:
             k = known(e)
@@ -177,6 +177,12 @@ def make_evaluator(defs: Dict[str, ast.expr],
         if isinstance(e, ast.Call):
             f = src(e.func)
             last = f.split(".")[-1]
+            if f in ("min", "max") and len(e.args) == 1 and isinstance(
+                    e.args[0], (ast.GeneratorExp, ast.ListComp)):
+                return ev(e.args[0].elt, depth + 1)   # extremum of like terms
+            if f in ("min", "max") and len(e.args) >= 2:
+                return ev(ast.Tuple(elts=list(e.args), ctx=ast.Load()),
+                          depth + 1)
             if last in RANDOM or f in ("len", "range", "np.arange",
                                        "np.ones", "np.zeros", "np.eye") \
                     or last in ("RandomState", "default_rng"):
